@@ -205,6 +205,27 @@ pub fn c05(cx: &RunCtx) {
         family: None,
     };
     run_cfg(cx, cfg);
+    // the same operations over ranges instead of boundary values: a replacement that agrees with the C-library
+    // operation except in the last bit of a sparse set of operands (sqrt for ^0.5, a product for ^2, a
+    // reciprocal for ^-1, fmod through a quotient) shows only there. Whole operands 1..20000, k/16 up to 500,
+    // every one-argument operation, and ^ % / * + - with the partners 0.5, 2, 3, -1, 1/3, 7, 0.1 on either side.
+    let mut xs: Vec<String> = (1..=20000).map(|x| x.to_string()).collect();
+    xs.extend((1..=8000).map(|k| format!("{}", k as f64 / 16.0)));
+    let mut inputs: Vec<String> = Vec::new();
+    for x in &xs {
+        for f in ["abs", "floor", "ceil", "trunc", "round", "sqrt"] {
+            inputs.push(format!("{}({})", f, x));
+            inputs.push(format!("{}(-{})", f, x));
+        }
+        inputs.push(format!("{}²", x));
+        for c in ["0.5", "2", "3", "(-1)", "(1/3)", "7", "0.1"] {
+            for op in ["^", "%", "/", "*", "+", "-"] {
+                inputs.push(format!("{}{}{}", x, op, c));
+                inputs.push(format!("{}{}{}", c, op, x));
+            }
+        }
+    }
+    crate::fam::run_list::<F64>(cx, "E-FUNC f64 operations over operand ranges (bit for bit)", &inputs, &[F64::default_at()], &kinds);
 }
 
 // ---------------------------------------------------------------- C06
